@@ -71,8 +71,8 @@ def peer_ledger(o, i):
 
 CFG = dict(
     streams=[('flow', 3000, 60000, 'http2test'), ('sched', 1000, 20000, 'http2test'), ('h2rx', 1500, 30000, 'http2test'),
-             ('h2tx', 1500, 30000, 'http2test'), ('h2stx', 400, 8000, 'http2test')],
-    oracle_ops={'schedtrace', 'h2stx'},
+             ('h2tx', 1500, 30000, 'http2test'), ('h2stx', 400, 8000, 'http2test'), ('rxblocked', 2, 8)],
+    oracle_ops={'schedtrace', 'h2stx', 'rxblocked'},
     self_evident=peer_ledger,
     twophase_ops={'sched', 'schedtrace'},
     http2_ops={'flow', 'sched', 'schedtrace', 'h2rx', 'h2tx', 'h2stx'},
